@@ -10,7 +10,8 @@ import tempfile
 from harness import world
 
 # "x_dyn" is a concrete name of the dynamic (glob) field "*_dyn"
-TEXT_FIELDS = ("body", "title", "x_dyn")
+TEXT_FIELDS = ("body", "title", "x_dyn", "wb", "wf")
+BOOSTED_FIELDS = ("wb", "wf")      # tokens typed as word^2 / word^4 carry a boost of their own
 
 # ---- injective value pools: id (1-based) -> concrete value --------------------------------
 POOLS = {
@@ -99,6 +100,11 @@ def make_schema(variant=0):
         cstruct=fields.COLUMN(columns.StructColumn("ih", (0, 0))),
         cvarx=fields.ID(sortable=columns.VarBytesColumn(write_offsets_cutoff=4)),
     )
+    # per-token boosts (DelimitedAttributeFilter: "word^2"): the posting weight is the sum of the boosts of the
+    # term's occurrences; one field with positions (and characters in every other variant), one with frequencies only
+    anab = analysis.RegexTokenizer(r"\S+") | analysis.DelimitedAttributeFilter()
+    schema.add("wb", fields.TEXT(analyzer=anab, phrase=True, chars=(variant % 2 == 0)))
+    schema.add("wf", fields.TEXT(analyzer=anab, phrase=False))
     # a dynamic field: indexed, scorable, with vectors, not stored
     schema.add("*_dyn", fields.TEXT(analyzer=ana, phrase=True, vector=(variant % 2 == 0)), glob=True)
     return schema
@@ -110,6 +116,11 @@ def rand_adoc(rng, key, rich=True):
     if rng.random() < 0.6:
         d["t"]["x_dyn"] = [world.rand_term(rng) for _ in range(rng.randrange(1, 5))]
     d["s"], d["c"] = {}, {}
+    d["tb"] = {}
+    for f in BOOSTED_FIELDS:
+        if rng.random() < 0.5:
+            d["t"][f] = [world.rand_term(rng) for _ in range(rng.randrange(1, 6))]
+            d["tb"][f] = [rng.choice([4, 4, 8, 16]) for _ in d["t"][f]]
     if rich:
         for f in STORED_FIELDS:
             if rng.random() < 0.6:
@@ -133,6 +144,9 @@ def concrete_kwargs(d):
         toks = d["t"].get(f)
         if toks:
             kw[f] = world.tokens_text(toks)
+            if f in BOOSTED_FIELDS:
+                kw[f] = u" ".join(world.term_text(t) + (u"" if b == 4 else u"^%d" % (b // 4))
+                                  for t, b in zip(toks, d["tb"][f]))
     for f, i in d["s"].items():
         v = POOLS[f][i - 1]
         if f == "blob":
@@ -341,6 +355,7 @@ def abstract_index(reader, adocs):
         d = adocs[k]
         docs.append({"live": not reader.is_deleted(dn),
                      "t": {f: d["t"].get(f, []) for f in TEXT_FIELDS}, "n": {},
+                     "tb": {f: d.get("tb", {}).get(f, []) for f in BOOSTED_FIELDS},
                      "s": dict((f, d["s"].get(f, 0)) for f in STORED_FIELDS),
                      "c": dict((f, d["c"].get(f, 0)) for f in COLUMN_FIELDS),
                      "b4": d.get("b4", 4), "key": k})
